@@ -175,6 +175,65 @@ theorem nodup_run {db0 : Nat → Option Entry} : ∀ (sched : List (Nat × List 
     obtain ⟨hc, hs, hk, hb, hrest⟩ := hg
     exact ih _ (inv_step s.1 s.2 inv hc hs hk hb) hrest hu.2 (nodup_step s.1 s.2 inv hs hk hu.1 hn)
 
+/-! ## `GoodU` as a decidable check over a finite item universe -/
+
+/-- `InstallFresh` with the quantifier over committed items bounded by `items`, plus: every write lands in `items` -/
+def InstallFreshN (items : List Nat) (g : G) (i : Nat) : Prop :=
+  (g.txns i).pc = .install →
+    ((((g.txns i).tracked.filter (·.writes)).map (·.item)).Nodup) ∧
+    (∀ w ∈ (g.txns i).tracked.filter (·.writes), w.act = .add → g.db w.item = none) ∧
+    (∀ w ∈ (g.txns i).tracked.filter (·.writes), w.act = .add → ∀ j ∈ items, ∀ e ∈ g.db j, e.key = w.ent.key →
+      ∃ w' ∈ (g.txns i).tracked.filter (·.writes), w'.act = .remove ∧ w'.item = j) ∧
+    (∀ w ∈ (g.txns i).tracked.filter (·.writes), w.act = .add → ∀ w' ∈ (g.txns i).tracked.filter (·.writes), w'.act = .add →
+      w'.ent.key = w.ent.key → w'.item = w.item) ∧
+    (∀ w ∈ (g.txns i).tracked.filter (·.writes), w.item ∈ items)
+
+instance (items : List Nat) (g : G) (i : Nat) : Decidable (InstallFreshN items g i) := by unfold InstallFreshN; infer_instance
+
+def GoodUN (items : List Nat) : G → List (Nat × List Nat) → Prop
+  | _, [] => True
+  | g, s :: rest => InstallFreshN items g s.1 ∧ GoodUN items (step g s.1 s.2) rest
+
+instance (items : List Nat) : ∀ (sched : List (Nat × List Nat)) (g : G), Decidable (GoodUN items g sched)
+  | [], _ => inferInstanceAs (Decidable True)
+  | s :: rest, g =>
+    have := instDecidableGoodUN items rest (step g s.1 s.2)
+    inferInstanceAs (Decidable (InstallFreshN items g s.1 ∧ GoodUN items (step g s.1 s.2) rest))
+
+/-- the committed data lives inside `items` -/
+def DbIn (items : List Nat) (g : G) : Prop := ∀ j, j ∉ items → g.db j = none
+
+theorem dbIn_step {items : List Nat} {g : G} (hck : ChecksAll g) (hshape : Shape g) (i : Nat) (hint : List Nat) (hd : DbIn items g)
+    (hf : InstallFreshN items g i) : DbIn items (step g i hint) := by
+  rcases step_spec g hck i hint with ⟨_, h⟩ | ⟨_, h⟩ | ⟨hpc, h⟩ | ⟨_, _, _, h⟩
+  · rw [h]; exact hd
+  · intro j hj; rw [h.db]; exact hd j hj
+  · intro j hj
+    rw [h.db, applyW_notin]
+    · exact hd j hj
+    · intro w hw heq
+      exact hj (heq ▸ (hf hpc).2.2.2.2 w hw)
+    · intro w hw
+      exact (hshape i w (List.mem_filter.mp hw).1).1
+  · intro j hj; rw [h.db]; exact hd j hj
+
+theorem installFresh_of {items : List Nat} {g : G} {i : Nat} (hd : DbIn items g) (hf : InstallFreshN items g i) :
+    InstallFresh g i := by
+  intro hpc
+  obtain ⟨f1, f2, f3, f4, _⟩ := hf hpc
+  refine ⟨f1, f2, ?_, f4⟩
+  intro w hw ha j e hj hk
+  by_cases hji : j ∈ items
+  · exact f3 w hw ha j hji e hj hk
+  · rw [hd j hji] at hj; cases hj
+
+/-- the checker is sound: on a run that is `Good`, `GoodUN` over an item universe holding the committed data gives `GoodU` -/
+theorem goodU_of {items : List Nat} : ∀ (sched : List (Nat × List Nat)) (g : G), DbIn items g → Good g sched → GoodUN items g sched →
+    GoodU g sched
+  | [], _, _, _, _ => trivial
+  | s :: rest, _, hd, hg, hu =>
+    ⟨installFresh_of hd hu.1, goodU_of rest _ (dbIn_step hg.2.2.1 hg.2.1 s.1 s.2 hd hu.1) hg.2.2.2.2 hu.2⟩
+
 /-- equal keys live on the same page, for every committed item and every item some transaction adds -/
 def KeysOnOnePage (g : G) : Prop :=
   ∃ kp : Int → Nat, (∀ i e, g.db i = some e → g.pageOf i = kp e.key) ∧
@@ -191,6 +250,12 @@ def Statement_C05 : Prop :=
 theorem C05_unique_partial (g0 : G) (sched : List (Nat × List Nat)) (h0 : Init g0) (hg : Good g0 sched) (hu : GoodU g0 sched)
     (hn : NoDupKeys g0.db) : NoDupKeys (run g0 sched).db :=
   nodup_run sched g0 (inv_init h0) hg hu hn
+
+/-- C05 partial with `GoodU` replaced by its decidable check over an item universe that holds the committed data
+    (`Good` itself has the decidable check `Sop.C02.GoodN`, sound by `Sop.C02.good_of`). -/
+theorem C05_unique_checked (items : List Nat) (g0 : G) (sched : List (Nat × List Nat)) (h0 : Init g0) (hg : Good g0 sched)
+    (hd : DbIn items g0) (hu : GoodUN items g0 sched) (hn : NoDupKeys g0.db) : NoDupKeys (run g0 sched).db :=
+  C05_unique_partial g0 sched h0 hg (goodU_of sched g0 hd hg hu) hn
 
 /-! ## witnesses -/
 
@@ -214,6 +279,12 @@ def onePage : G := { twoPages with pageOf := fun _ => 1 }
 
 theorem same_page_one_wins :
     (run onePage rr).db 1000 = some ⟨20, 1, 0⟩ ∧ (run onePage rr).db 2000 = none ∧ ((run onePage rr).txns 1).res = .err := by decide
+
+/-- non-vacuity of `GoodU`: the same-page run above meets the decidable check (items 1000 and 2000), so it meets
+    `GoodU` once it is `Good`; the two-page run does NOT (its second install adds key 20 while item 1000 holds it). -/
+theorem goodUN_onePage : GoodUN [1000, 2000] onePage rr := by decide
+
+theorem not_goodUN_twoPages : ¬ GoodUN [1000, 2000] twoPages rr := by decide
 
 /-- non-vacuity of `WsFresh`: replace the holder of key 20 (item 7) by a new item and update item 8 -/
 example : WsFresh (fun i => if i = 7 then some ⟨20, 1, 0⟩ else if i = 8 then some ⟨30, 1, 0⟩ else none)
